@@ -106,6 +106,12 @@ def shrink(prop, st, tier, seed, wd, inp):
 
 
 def run_property(prop, tier, replay=None):
+    # one run per property and tree at a time (they share the work directory)
+    with V.Lock("prop_" + prop.pid + V.REPO_TAG):
+        return _run_property(prop, tier, replay)
+
+
+def _run_property(prop, tier, replay=None):
     t0 = time.time()
     seed = int(os.environ.get("VERIF_SEED", "1") or "1")
     wd = os.path.join(V.WORK, prop.pid + V.REPO_TAG)
